@@ -20,6 +20,7 @@ import (
 	"gitlab.com/aquachain/aquachain/common"
 	"gitlab.com/aquachain/aquachain/consensus/aquahash/ethashdag"
 	"gitlab.com/aquachain/aquachain/core/types"
+	"gitlab.com/aquachain/aquachain/params"
 	"gitlab.com/aquachain/aquachain/crypto"
 	"gitlab.com/aquachain/aquachain/rlp"
 	"golang.org/x/crypto/argon2"
@@ -240,6 +241,11 @@ func TestVerifSeal(t *testing.T) {
 					c := newFakeChain(s.cfg)
 					num := hf.Int64() + int64(rng.Intn(2))
 					hd := &types.Header{Number: big.NewInt(num), Time: big.NewInt(1600000000), GasLimit: 4700000, Difficulty: big.NewInt(diff), Extra: []byte("mined")}
+					if threads == 2 {
+						// a template that already carries seal fields (copied from a sealed header): the sealer owns them
+						rng.Read(hd.MixDigest[:])
+						hd.Nonce = types.EncodeNonce(rng.Uint64())
+					}
 					hd.Version = s.cfg.GetBlockVersion(hd.Number) // as the miner's worker does before Seal
 					if hd.Version == 1 {
 						continue
@@ -268,6 +274,39 @@ func TestVerifSeal(t *testing.T) {
 					w.emit(ev)
 				}
 			}
+		}
+	}
+	// one engine verifies a correctly sealed header and then the same header with another mix digest (and in the other order on a
+	// fresh engine): every header is checked on its own
+	{
+		cfg := &params.ChainConfig{ChainId: big.NewInt(77), HomesteadBlock: big.NewInt(0), EIP150Block: big.NewInt(0), Aquahash: new(params.AquahashConfig), HF: params.ForkMap{}}
+		mk := func() (*Aquahash, *fakeChain) { return NewTester(), newFakeChain(cfg) }
+		eng, c := mk()
+		parent := &types.Header{Number: big.NewInt(0), Time: big.NewInt(1600000000), GasLimit: 4700000, Difficulty: big.NewInt(131072), Version: 1}
+		c.add(parent)
+		hd := &types.Header{ParentHash: parent.Hash(), Number: big.NewInt(1), Time: big.NewInt(1600000013), GasLimit: 4700000, Extra: []byte("seq"), Version: 1}
+		hd.Difficulty = eng.CalcDifficulty(c, hd.Time.Uint64(), parent, nil)
+		eng.SetThreads(4)
+		res, err := eng.Seal(c, types.NewBlock(hd, nil, nil, nil), nil)
+		if err == nil && res != nil {
+			good := res.Header()
+			bad := types.CopyHeader(good)
+			bad.MixDigest[7] ^= 0x10
+			vs := func(e error) string {
+				if e == nil {
+					return ""
+				}
+				return e.Error()
+			}
+			e1, c1 := mk()
+			c1.add(parent)
+			a := vs(e1.VerifyHeader(c1, good, true))
+			b := vs(e1.VerifyHeader(c1, bad, true))
+			e2, c2 := mk()
+			c2.add(parent)
+			d := vs(e2.VerifyHeader(c2, bad, true))
+			g := vs(e2.VerifyHeader(c2, good, true))
+			w.emit(map[string]interface{}{"e": "sealseq", "goodFirst": []string{a, b}, "badFirst": []string{d, g}})
 		}
 	}
 	fmt.Printf("VERIF-STAT events=%d\n", w.n)
